@@ -61,7 +61,8 @@ def gen_cases(rng, tier):
         full = rng.random() < 0.5
         add(cls="spin", kind="spin", n=rng.choice([4, 5, 6]), qn=rng.random() < 0.6, enc=rng.choice(["01", "01", "pm"]), sector="rand", method=rng.choice(["1site", "2site"]),
             prep=rng.choice(["left", "right"]), procedure=proc(rng.choice([6, 8]) if full else rng.choice([3, 4, 5]), full=full),
-            nroots=rng.choice([1, 1, 2, 3, 4]), m_init=64 if full else rng.choice([4, 8]), e_rtol=1e-12 if full else 1e-6, e_atol=1e-12 if full else 1e-8)
+            nroots=rng.choice([1, 1, 2, 3, 4]), m_init=64 if full else rng.choice([4, 8]), e_rtol=1e-12 if full else 1e-6, e_atol=1e-12 if full else 1e-8,
+            algo=rng.choice(["davidson", "direct"]))
     # (c) electron-phonon (Holstein) 2-3 molecules, 2-3 phonon levels
     for rep in range(12 * mult):
         full = rng.random() < 0.5
@@ -99,6 +100,25 @@ def gen_cases(rng, tier):
             kw = dict(norb=2, sector=[1, 1], swap_jw=False)
         add(cls="ofs", kind=kind, method="2site", prep="left", ofs=rng.choice(["s", "d", "ds", "debug"]),
             procedure=proc(6 if full else 3, full=full, lowm=(4, 6, 10)), nroots=1, m_init=64 if full else 8, **kw)
+    # (k) every returned state: roots 1..4 x both methods x truncating / non-truncating bond limit, strongly entangled chain (couplings
+    #     between all pairs), largest sector: norm, sector, <H> by dense contraction, consistency with the reported energy
+    for rep in range(mult):
+        for nroots in (1, 2, 3, 4):
+            for method in ("1site", "2site"):
+                for trunc in (True, False):
+                    m = rng.choice([2, 3]) if trunc else BIG_M
+                    add(cls="roots-grid", kind="spin", lr=True, n=6, qn=True, enc="01", sector="mid", method=method, prep=rng.choice(["left", "right"]),
+                        procedure=[[m, 0.4], [m, 0.2], [m, 0.0], [m, 0.0]] + ([] if trunc else [[m, 0.0], [m, 0.0]]), nroots=nroots,
+                        m_init=rng.choice([2, 3]) if trunc else 64, algo=rng.choice(["davidson", "direct"]))
+    # (l) start from a full-rank random state, reduce the bond limit, restore it to the exact ranks (6 spins: 8): the energy
+    #     recorded in sweep 0 before anything is truncated must not certify convergence (fix 95f634f)
+    for rep in range(2 * mult):
+        for method in ("2site", "1site"):
+            n = 6 if rep % 2 == 0 else 5
+            mx = 8 if n == 6 else 4
+            add(cls="reduce-restore", kind="spin", lr=True, n=n, qn=True, enc="01", sector="mid", method=method, prep="left", m_init=mx,
+                procedure=[[2, 0.5], [max(2, mx // 2), 0.3]] + [[mx, 0.0]] * 5, nroots=1, e_rtol=1e-12, e_atol=1e-12,
+                expect_final_exact=(method == "2site"), algo="davidson")
     # (i) warm starts: non-canonical tensors under canonical-looking flags (results of add / apply), both flag settings
     for rep in range(8 * mult):
         kind = rng.choice(["spin", "spin", "holstein"])
@@ -144,6 +164,23 @@ def gen_cases(rng, tier):
     # corpus (always first): a truncating tree run -- optimize_ttns leaves the optimised TTNS unnormalised (see notes/C08.md)
     trees.append({"id": 0, "seed": 260653340, "topo": "binary", "procedure": [[6, 0.3], [3, 0.1], [2, 0]], "m_init": 6, "algo": "davidson",
                   "kind": "spin", "n": 6, "qn": False, "enc": "pm", "sector": None})
+    # every eigen-solver branch of tn/gs.py on the same problem at full bond dimension: spectra that straddle zero (spin) and
+    # non-negative ones (electron-phonon); no quantum number so that every local problem has dimension >= 4 (ARPACK needs k < n)
+    for g in range(4 * mult):
+        if g % 2 == 0:
+            kw = dict(kind="spin", n=rng.choice([4, 5, 6]), qn=False, lr=rng.random() < 0.5, sector=None)
+        else:
+            kw = dict(kind="holstein", nmol=2, nbas=rng.choice([2, 3]), qn=False, sector=None)
+        ms, topo = rng.randrange(1, 2 ** 31), rng.choice(["linear", "binary", "star", "multi", "random"])
+        for algo in ("davidson", "arpack", "direct"):
+            addt(group=g, model_seed=ms, topo=topo, procedure=[[BIG_M, 0.3], [BIG_M, 0.1], [BIG_M, 0], [BIG_M, 0]], m_init=32, algo=algo, **kw)
+            trees[-1]["seed"] = ms
+    # ... and truncating runs with every solver: the state left behind must be normalised, in the sector, variational
+    for rep in range(2 * mult):
+        for algo in ("davidson", "arpack", "direct"):
+            m = rng.choice([2, 3])
+            addt(topo=rng.choice(["linear", "binary", "star", "random"]), kind="spin", n=rng.choice([5, 6]), qn=False, lr=True, sector=None,
+                 procedure=[[m, 0.3], [m, 0.1], [m, 0]], m_init=4, algo=algo)
     for rep in range(14 * mult):
         full = rng.random() < 0.5
         if rng.random() < 0.7:
@@ -250,6 +287,22 @@ print("case:", case)
 print("exact sector spectrum:", r.get("exact"), "macro energies:", r.get("macro"))
 print("failures of class", %r, ":", bad[:3])
 sys.exit(1 if bad else 0)
+'''
+
+REPRO_GROUP = r'''
+import sys, json
+sys.path.insert(0, "/verif/harness/impl")
+import c08_tree as R
+cases = json.loads(%r)
+R.install()
+es = {}
+for case in cases:
+    r = R.run_case(case)
+    es[case["algo"]] = r["macro"][-1] if r.get("ok") else None
+    exact = r.get("exact", [None])[0]
+print("same model, same tree, full bond dimension; last reported energy per eigen-solver branch:", es, " exact:", exact)
+vals = [v for v in es.values() if v is not None]
+sys.exit(1 if (len(vals) < len(es) or max(vals) - min(vals) > 1e-6 * max(1.0, abs(min(vals)))) else 0)
 '''
 
 REPRO_TREE = r'''
@@ -510,6 +563,22 @@ def run(ctx):
                 else:
                     n_ttrace_ok += 1
                     tshapes.add(key)
+    groups = {}
+    for c in trees:
+        r = tres.get(c["id"])
+        if "group" in c and r and r.get("ok") and not r.get("skip") and r.get("_converged_full"):
+            groups.setdefault(c["group"], []).append((c, r))
+    n_agree = 0
+    group_cases = {}
+    for g, lst in groups.items():
+        if len(lst) < 2:
+            continue
+        n_agree += 1
+        es = [r["macro"][-1] for _, r in lst]
+        if max(es) - min(es) > 1e-6 * max(1.0, abs(min(es))):
+            group_cases[g] = [c for c, _ in lst]
+            classes.setdefault("tree-solvers-disagree", []).append((min(lst, key=lambda x: -x[1]["macro"][-1])[0],
+                {"group": g, "what": "the eigen-solver branches of tn/gs.py disagree at full bond dimension", "energies": {c["algo"]: r["macro"][-1] for c, r in lst}, "exact": lst[0][1]["exact"][0]}))
     if len(samples) < 3 and trees:
         for c in trees:
             r = tres.get(c["id"])
@@ -526,11 +595,14 @@ def run(ctx):
         failing = [o["name"] for o in ctx.obligations if not o["ok"]]
         # a failing input from the oracle / correspondence, if there is one, goes into the same report
         found_cls = next((k for k in ("variational-bound", "witness-projection", "witness-rayleigh", "witness-isometry", "witness-sector",
-                                      "full-bond-exactness", "returned-state", "crash") if k in classes), None)
+                                      "full-bond-exactness", "returned-state", "tree-full-bond-exactness", "tree-variational-bound",
+                                      "tree-witness-projection", "tree-returned-state") if k in classes), None)
+        if found_cls is None and len(classes.get("crash", [])) >= 5:
+            found_cls = "crash"
         repro = None
         if found_cls:
             c0 = classes[found_cls][0][0]
-            repro = REPRO_CHAIN % (json.dumps(c0), found_cls, found_cls)
+            repro = (REPRO_TREE if found_cls.startswith("tree-") else REPRO_CHAIN) % (json.dumps(c0), found_cls, found_cls)
         ctx.violation("sweep-proofs", "theorem(s) of Props/C08.v no longer check against the regenerated Gen/SweepSched.v: " + ", ".join(failing),
                       {"coq_log_tail": (log or "")[-1800:], "failing_input_class": found_cls,
                        "first_failure": classes[found_cls][0][1] if found_cls else None}, found=bool(found_cls), repro=repro)
@@ -577,7 +649,8 @@ def run(ctx):
                   "variational-bound": "dense oracle: reported energy below the exact sector eigenvalue (C08_variational_bound / C08_second_root / C08_shifted_target contradicted, so one of their witness hypotheses fails)",
                   "full-bond-exactness": "dense oracle: at full bond dimension the reported energy differs from exact diagonalisation (residual clause)",
                   "returned-state": "dense oracle: returned state not normalised / outside the sector / energy differs from the reported one",
-                  "state-not-normalised": "dense oracle: `the returned states are normalised` fails for the tree optimiser (state optimised in place)"}.get(
+                  "state-not-normalised": "dense oracle: `the returned states are normalised` fails for the tree optimiser (state optimised in place)",
+                  "solvers-disagree": "dense oracle: eigen-solver branches disagree at full bond dimension (C08_solvers_request_smallest / exact diagonalisation)"}.get(
                       klass[5:] if tree else klass, "dense oracle")
         found = klass not in ("trace-correspondence", "witness-hook", "tree-trace-correspondence")
         repro = None
@@ -585,6 +658,8 @@ def run(ctx):
             repro = (REPRO_TREE if tree else REPRO_CHAIN) % (json.dumps(c0), klass[5:] if tree else klass, klass)
             if tree:
                 repro = REPRO_TREE % (json.dumps(c0), klass, klass)
+            if klass == "tree-solvers-disagree":
+                repro = REPRO_GROUP % (json.dumps(group_cases[d0["group"]]),)
         key = ("tree:" + klass[5:]) if tree else ("chain:" + klass)      # stable: call-site family + failure class
         ctx.violation(key, broken, {"n_failing_cases": len(items), "case": c0, "detail": d0}, found=found, repro=repro)
     ev = n_trace + n_solves + n_tree_solves + n_heff + n_ttrace
